@@ -19,7 +19,7 @@ def run_real(build, cases, delta=1, worker='core_worker.py'):
     parts = chunks(cases, NWORKERS)
     out = []
     with cf.ThreadPoolExecutor(max_workers=NWORKERS) as ex:
-        futs = [ex.submit(run_worker, build, worker, {'cases': p, 'delta': delta}) for p in parts]
+        futs = [ex.submit(run_worker, build, worker, {'cases': p, 'delta': delta}, 7200) for p in parts]
         for f in futs:
             out.extend(f.result()['results'])
     return out
